@@ -109,6 +109,8 @@ def run_case(spec, inputs=None):
         vs = check_trace(tr, spec)
         out["violations"] += vs
         out["counters"]["traces"] = out["counters"].get("traces", 0) + 1
+        if tr.get("same_client"):
+            out["counters"]["traces_on_a_client_used_before"] = out["counters"].get("traces_on_a_client_used_before", 0) + 1
         out["counters"]["put_events"] = out["counters"].get("put_events", 0) + len(tr["puts"])
         out["counters"]["file_events"] = out["counters"].get("file_events", 0) + len(tr["files"])
         out["counters"][f"outcome_{tr['outcome']}"] = out["counters"].get(f"outcome_{tr['outcome']}", 0) + 1
@@ -355,6 +357,10 @@ def child(spec):
         variants += [(so, True) for so in SUBSETS]
     if spec["i"] % 2 == 0 and spec.get("args") != "copied":
         variants = list(reversed(variants))  # history in which everything is requested first, nothing last
+    # every third child: ONE client answers all polls of the child (same election, same feed, only what is to be
+    # persisted changes from poll to poll), as a long-running service does; what a poll persists must not depend on
+    # what the client did before
+    one_client = cm.ModelClient() if spec["i"] % 3 == 1 and spec.get("inputs") != "cli" else None
     with harness.patched() as p:
         if est == "gaussian":
             harness.fast_boot_sigma(p, 100)
@@ -366,8 +372,8 @@ def child(spec):
             c2["save_output"] = list(so)
             mode = spec.get("args", "copied")
             shared_mp = None if mode == "copied" else (shared_dict if mode == "shared" else harness.OMIT)
-            client = cm.ModelClient()
-            tr = dict(save_output=list(so), summary=summary, election_id=el.election_id, office=el.office,
+            client = one_client or cm.ModelClient()
+            tr = dict(same_client=one_client is not None, save_output=list(so), summary=summary, election_id=el.election_id, office=el.office,
                       geo_type=el.geo_type, cwd=cwd, tables=[], n_agg=len([a for a in c2["aggregates"] if a != "unit"]))
             log["active"] = True
             try:
